@@ -596,6 +596,22 @@ Proof.
 Qed.
 
 (* ------------------------------------------------------------------ the whole estimator on f64 *)
+(* backward movement:  -(inverted_diff as f64 * 1000.0) / (effective_ms_diff as f64)   (negation is exact) *)
+Definition f64_raw_neg (d ms : Z) : R := rnd (- rnd (rnd (IZR d) * 1000) / rnd (IZR ms)).
+
+Lemma f64_raw_neg_nonpos d ms :
+  (0 <= d < 4294967296)%Z -> (25 <= ms <= 600000)%Z -> f64_raw_neg d ms <= 0.
+Proof.
+  intros Hd Hms. unfold f64_raw_neg.
+  rewrite (rnd_id (IZR d)) by (apply fmt_Z; lia). rewrite (rnd_id (IZR ms)) by (apply fmt_Z; lia).
+  replace (IZR d * 1000) with (IZR (1000 * d)) by (rewrite mult_IZR; ring).
+  rewrite (rnd_id (IZR (1000 * d))) by (apply fmt_Z; lia).
+  apply rnd_ub; [apply (fmt_Z 0); lia|].
+  assert (0 <= IZR (1000 * d)) by (apply IZR_le; lia).
+  assert (0 < / IZR ms) by (apply Rinv_0_lt_compat, IZR_lt; lia).
+  unfold Rdiv. nra.
+Qed.
+
 Definition f64_calculate_frequency (current reference : tcp_timestamp) : option R :=
   let ms_diff := saturating_sub (recv_time_ms current) (recv_time_ms reference) in
   let ts_diff := wrapping_sub32 (ts_val current) (ts_val reference) in
@@ -615,7 +631,7 @@ Definition f64_calculate_frequency (current reference : tcp_timestamp) : option 
     else
       let effective_ms_diff := Z.max ms_diff 1 in
       let raw_freq :=
-        if (not32 ts_diff <? ts_diff)%Z then f64_raw (not32 ts_diff) effective_ms_diff
+        if (not32 ts_diff <? ts_diff)%Z then f64_raw_neg (not32 ts_diff) effective_ms_diff
         else f64_raw ts_diff effective_ms_diff in
       if Rle_bool 1 raw_freq && Rle_bool raw_freq 1500 then Some raw_freq else None.
 
@@ -675,5 +691,10 @@ Proof.
     rewrite (f64_final_frequency_eq d ms Hd ltac:(lia) Hr).
     rewrite f64_uptime_eq; [reflexivity | exact Hv2 |].
     apply final_frequency_range; lia. }
-  destruct (not32 tsd <? tsd)%Z; apply K; assumption.
+  destruct (not32 tsd <? tsd)%Z; [|apply K; assumption].
+  (* backward: the rate is non-positive on both sides, the range check fails *)
+  pose proof (f64_raw_neg_nonpos (not32 tsd) ms Hinv ltac:(lia)) as N.
+  rewrite (Rle_bool_false 1 (f64_raw_neg (not32 tsd) ms)) by lra.
+  unfold q_le, q_of_Z, MIN_FINAL_HZ. cbn [qn qd andb].
+  destruct (Z.leb_spec (1 * ms) (- (not32 tsd * 1000) * 1)); [lia | reflexivity].
 Qed.
